@@ -230,6 +230,7 @@ def strip_model_log(mlog):
 
 
 def one_case(ctx, case):
+    ctx.current_case = case
     kind, start, epochs, N, B = case["kind"], case["start"], case["epochs"], case["N"], case["B"]
     cbs, lam, timer, sched, stop0 = case["cbs"], case["lambda"], case["time"], case["sched"], case["stop0"]
     inj_cb, inj_mid = case["inject_cb"], case["inject_mid"]
